@@ -8,10 +8,12 @@ import (
 
 func TestVerifReplay(t *testing.T) {
 	vrt.RunReplay(t, map[string]func(){
-		"VerifC04Quick":         VerifC04Quick,
-		"VerifC04Thorough":      VerifC04Thorough,
-		"VerifC04Truncate":      VerifC04Truncate,
-		"VerifC04Refused":       VerifC04Refused,
-		"VerifC04TruncateTwice": VerifC04TruncateTwice,
+		"VerifC04Quick":            VerifC04Quick,
+		"VerifC04Thorough":         VerifC04Thorough,
+		"VerifC04Truncate":         VerifC04Truncate,
+		"VerifC04Refused":          VerifC04Refused,
+		"VerifC04Refused3":         VerifC04Refused3,
+		"VerifC04RefusedElsewhere": VerifC04RefusedElsewhere,
+		"VerifC04TruncateTwice":    VerifC04TruncateTwice,
 	})
 }
